@@ -242,19 +242,21 @@ Section Inv.
 
   (* the sockets and logs are untouched: only contexts / channels change *)
   Lemma EP_same S F e e' g :
-    ep_sock e' = ep_sock e -> ctx_ok (ep_cx e') -> ep_written e' = ep_written e -> ep_read e' = ep_read e ->
+    ep_sock e' = ep_sock e -> ctx_ok (ep_cx e') /\ mtu_ok (ep_cx e') ->
+    ep_written e' = ep_written e -> ep_read e' = ep_read e ->
     ep_closed e' = ep_closed e -> ep_finished e' = ep_finished e ->
     EP S F e g -> EP S F e' g.
   Proof.
-    intros E1 Hcx E3 E4 E5 E6 (H1 & _ & H3 & H4 & H5 & H6 & H7).
-    unfold EP, txl, rxl, dead_tx in *. rewrite E1, E3, E4, E5, E6.
-    split; [exact H1|]. split; [exact Hcx|]. split; [exact H3|]. split; [exact H4|].
+    intros E1 (Hcx & Hmtu) E3 E4 E5 E6 (H1 & (_ & (_ & Hlive)) & H3 & H4 & H5 & H6 & H7).
+    unfold EP, txl, rxl, dead_tx, live_ok in *. rewrite E1, E3, E4, E5, E6.
+    split; [exact H1|]. split; [split; [exact Hcx | split; [exact Hmtu | exact Hlive]]|]. split; [exact H3|]. split; [exact H4|].
     split; [exact H5|]. split; [exact H6 | exact H7].
   Qed.
 
   Lemma INV_same Sa Fa Sb Fb isn ga gb st st' :
     INV Sa Fa Sb Fb isn ga gb st ->
-    (forall x, ep_sock (net_get st' x) = ep_sock (net_get st x) /\ ctx_ok (ep_cx (net_get st' x)) /\
+    (forall x, ep_sock (net_get st' x) = ep_sock (net_get st x) /\
+               (ctx_ok (ep_cx (net_get st' x)) /\ mtu_ok (ep_cx (net_get st' x))) /\
                ep_written (net_get st' x) = ep_written (net_get st x) /\
                ep_read (net_get st' x) = ep_read (net_get st x) /\
                ep_closed (net_get st' x) = ep_closed (net_get st x) /\
@@ -275,11 +277,11 @@ Section Inv.
       (eapply incl_tran; [eassumption|]); [apply (Hchan SA) | apply (Hchan SB)].
   Qed.
 
-  Lemma ctx_ok_tick c d : ctx_ok c -> ctx_ok (cx_tick c d).
-  Proof. unfold ctx_ok, cx_tick. cbn. tauto. Qed.
-  Lemma ctx_ok_rand c i t : ctx_ok c -> ctx_ok (cx_rand c i t).
+  Lemma ctx_ok_tick c d : ctx_ok c /\ mtu_ok c -> ctx_ok (cx_tick c d) /\ mtu_ok (cx_tick c d).
+  Proof. unfold ctx_ok, mtu_ok, cx_tick. cbn. tauto. Qed.
+  Lemma ctx_ok_rand c i t : ctx_ok c /\ mtu_ok c -> ctx_ok (cx_rand c i t) /\ mtu_ok (cx_rand c i t).
   Proof.
-    unfold ctx_ok, cx_rand. cbn. intros (_ & H). split; [|exact H].
+    unfold ctx_ok, mtu_ok, cx_rand. cbn. intros ((_ & H) & Hm). split; [|exact Hm]. split; [|exact H].
     change (2 ^ 32) with 4294967296. lia.
   Qed.
 
@@ -296,7 +298,8 @@ Section Inv.
     assert (Hfr0 : forall st1, (forall x, ep_written (net_get st1 x) = ep_written (net_get st x)) -> frozen st st1).
     { intros st1 H x _. apply H. }
     assert (Hsame : forall st1,
-      (forall x, ep_sock (net_get st1 x) = ep_sock (net_get st x) /\ ctx_ok (ep_cx (net_get st1 x)) /\
+      (forall x, ep_sock (net_get st1 x) = ep_sock (net_get st x) /\
+               (ctx_ok (ep_cx (net_get st1 x)) /\ mtu_ok (ep_cx (net_get st1 x))) /\
                ep_written (net_get st1 x) = ep_written (net_get st x) /\
                ep_read (net_get st1 x) = ep_read (net_get st x) /\
                ep_closed (net_get st1 x) = ep_closed (net_get st x) /\
@@ -305,8 +308,9 @@ Section Inv.
                incl (ep_out (net_get st1 x)) (ep_out (net_get st x))) ->
       exists ga' gb', INV Sa Fa Sb Fb isn ga' gb' st1 /\ frozen st st1).
     { intros st1 H. exists ga, gb. split; [eapply INV_same; eassumption|]. apply Hfr0. intros x. apply (H x). }
-    assert (Hcxok : forall x, ctx_ok (ep_cx (net_get st x))).
-    { destruct Hinv as ((_ & Ha & _) & (_ & Hb & _) & _). intros [|]; assumption. }
+    assert (Hcxok : forall x, ctx_ok (ep_cx (net_get st x)) /\ mtu_ok (ep_cx (net_get st x))).
+    { destruct Hinv as ((_ & (Ha & (Ha' & _)) & _) & (_ & (Hb & (Hb' & _)) & _) & _).
+      intros [|]; split; assumption. }
     assert (Hep : forall x ev0,
       run_ev ev0 -> (do e <- ep_step (net_get st x) ev0; Ok (net_set st x e)) = Ok st' ->
       (forall ip r, ev0 = EvSegment ip r ->
@@ -357,7 +361,7 @@ Section Inv.
   Hypothesis c05new : c05_contract_new.
 
   Definition cfg_ok (c : ep_config) : Prop :=
-    l_len (c_tx_storage c) <= 2 ^ 30 /\ wipv4_HEADER_LEN + wtcp_HEADER_LEN <= c_mtu c.
+    l_len (c_tx_storage c) <= 2 ^ 30 /\ 52 < c_mtu c <= 65575 /\ TcpLiveBase.cc_ok (c_cc c).
 
   Definition init_ev (ev : event) : Prop :=
     match ev with
@@ -368,7 +372,7 @@ Section Inv.
 
   (* an endpoint before the first run event: nothing written, read or sent, both ghosts blank *)
   Definition IE (S : Z -> Z) (F : option Z) (e : endpoint) (gt : txghost) (gr : rxghost) : Prop :=
-    inv gt (ep_sock e) /\ ctx_ok (ep_cx e) /\ ginv (fun _ => S) (fun _ => F) gr (ep_sock e) /\
+    inv gt (ep_sock e) /\ (ctx_ok (ep_cx e) /\ live_ok e) /\ ginv (fun _ => S) (fun _ => F) gr (ep_sock e) /\
     tx_blank gt /\ g_irs gr = None /\ (forall k, ~ g_have gr k) /\
     ep_sent e = [] /\ ep_out e = [] /\ ep_written e = [] /\ ep_read e = [] /\
     ep_closed e = false /\ ep_finished e = false.
@@ -377,13 +381,16 @@ Section Inv.
     IE S F e gt gr -> init_ev ev -> ep_step e ev = Ok e' ->
     exists gt' gr', IE S F e' gt' gr'.
   Proof.
-    intros (Hi & Hcx & Hg & Hb & Hn & Hh & E1 & E2 & E3 & E4 & E5 & E6) Hev Hep.
+    intros (Hi & (Hcx & (Hmtu & Hlive)) & Hg & Hb & Hn & Hh & E1 & E2 & E3 & E4 & E5 & E6) Hev Hep.
     destruct (ep_step_spec _ _ _ Hep) as (s' & out & tags & Hstep & X1 & X2 & X3 & X4 & X5 & X6 & X7 & X8).
     destruct (ginv_wf _ _ _ _ Hg) as (Hwf & _ & Hsh).
     assert (Hevrx : ev_ok (fun _ => S) (fun _ => F) gr (ep_sock e) ev) by (destruct ev; try contradiction; exact I).
     assert (Hevtx : match ev with EvSegment ip r => repr_ok r | _ => True end) by (destruct ev; try contradiction; exact I).
-    destruct (c05 _ _ _ _ _ _ _ Hi Hcx Hevtx Hstep) as (gt' & Hi' & Hrel & _).
+    destruct (c05 _ _ _ _ _ _ _ Hi Hcx Hmtu Hlive Hevtx Hstep) as (gt' & Hi' & Hrel & _).
     pose proof (step_inv _ _ (Fx_nonneg F HF) _ _ _ _ _ _ _ Hg Hevrx Hstep) as (Hg' & _).
+    assert (Hlive' : TcpLiveProofs.tcp_live_inv s').
+    { apply (TcpLiveProofs.step_inv (ep_cx e) (ep_sock e) ev s' out tags); [apply Hcx| |exact Hlive | exact Hstep].
+      destruct ev; try contradiction; exact I. }
     exists gt', (ghost_step (ep_cx e) gr (ep_sock e) ev s' out).
     assert (Hwo : wire_out out = None).
     { destruct ev; try contradiction; cbn [tcp_step] in Hstep.
@@ -395,8 +402,8 @@ Section Inv.
       - inversion Hstep; reflexivity.
       - destruct (tcp_set_hop_limit _ _); cbn [obind] in Hstep; inversion Hstep; reflexivity. }
     rewrite Hwo in X3, X4. cbn [opt_list] in X3, X4. rewrite app_nil_r in X3, X4.
-    unfold IE. rewrite X1, X2, X3, X4, X5, X6, X7, X8, E1, E2, E3, E4, E5, E6.
-    split; [exact Hi'|]. split; [exact Hcx|]. split; [exact Hg'|].
+    unfold IE, live_ok. rewrite X1, X2, X3, X4, X5, X6, X7, X8, E1, E2, E3, E4, E5, E6.
+    split; [exact Hi'|]. split; [split; [exact Hcx | split; [exact Hmtu | exact Hlive']]|]. split; [exact Hg'|].
     split.
     { destruct Hrel as [Hs | (Hb' & _)]; [|exact Hb'].
       destruct Hs as (_ & Hst & Hfin & _ & _ & Hle & _ & Hadv). destruct Hb as (B1 & B2 & B3).
@@ -443,12 +450,16 @@ Section Inv.
     cfg_ok c -> ep_create c = Ok e ->
     exists gt gr, IE S F e gt gr /\ AI (ep_cx e) (ep_sock e).
   Proof.
-    intros (Hc1 & Hc2) He.
+    intros (Hc1 & Hc2 & Hc3) He.
     apply (ep_create_ind (fun e => exists gt gr, IE S F e gt gr /\ AI (ep_cx e) (ep_sock e)) c e); [| |exact He].
     - intros s Hn. exists ghost0, g_init. split.
-      + unfold IE. cbn [ep_sock ep_cx ep_sent ep_out ep_written ep_read ep_closed ep_finished].
+      + unfold IE, live_ok. cbn [ep_sock ep_cx ep_sent ep_out ep_written ep_read ep_closed ep_finished].
         split; [apply (c05new _ _ _ _ _ Hn Hc1)|].
-        split; [unfold ctx_ok, cfg_ctx; cbn [cx_isn cx_ip_mtu]; split; [change (2 ^ 32) with 4294967296; lia | exact Hc2]|].
+        split.
+        { split; [unfold ctx_ok, cfg_ctx, wipv4_HEADER_LEN, wtcp_HEADER_LEN; cbn [cx_isn cx_ip_mtu];
+                  split; [change (2 ^ 32) with 4294967296; lia | lia]|].
+          split; [unfold mtu_ok, cfg_ctx; cbn [cx_ip_mtu]; exact Hc2|].
+          apply (TcpLiveProofs.new_inv _ _ _ _ _ Hc3 Hn). }
         split; [apply (new_unsynced _ _ _ _ _ _ _ Hn)|].
         split; [unfold tx_blank, ghost0; cbn; repeat split; reflexivity|].
         split; [reflexivity|]. split; [intros k Hk; exact Hk|]. repeat split; reflexivity.
@@ -492,7 +503,7 @@ Section Inv.
     destruct Hieb as (Bi & Bcx & Bg & Bb & Bn & Bh & B1 & B2 & B3 & B4 & B5 & B6).
     exists (mkEg gta gra None None 0), (mkEg gtb grb None None 0).
     assert (HEP : forall S F e gt gr,
-              inv gt (ep_sock e) -> ctx_ok (ep_cx e) -> ginv (fun _ => S) (fun _ => F) gr (ep_sock e) ->
+              inv gt (ep_sock e) -> ctx_ok (ep_cx e) /\ live_ok e -> ginv (fun _ => S) (fun _ => F) gr (ep_sock e) ->
               tx_blank gt -> g_irs gr = None -> ep_written e = [] -> ep_read e = [] ->
               ep_closed e = false -> ep_finished e = false ->
               EP S F e (mkEg gt gr None None 0)).
@@ -514,7 +525,7 @@ Section Inv.
     split; [apply HEP; assumption|]. split; [apply HEP; assumption|].
     split; [apply HDIR; assumption|]. split; [apply HDIR; assumption|].
     split; [|exact Hchan].
-    destruct Haia as (L1 & L2). destruct Acx as (Hisn & _).
+    destruct Haia as (L1 & L2). destruct Acx as ((Hisn & _) & _).
     unfold ROLES. cbn [eg_tx eg_rx eg_J eg_K eg_R].
     split; [change 4294967296 with (2 ^ 32); exact Hisn|]. split; [exact L1|].
     split; [destruct L2 as [E | (E & _)]; rewrite E; discriminate|].
@@ -533,11 +544,11 @@ Section Inv.
   Lemma frozen_ep S F e g ev e' :
     EP S F e g -> ep_step e ev = Ok e' -> ep_closed e = true -> ep_written e' = ep_written e.
   Proof.
-    intros (Hinv & Hcx & Hg & Htxl & _) Hep Hcl.
+    intros (Hinv & (Hcx & (Hmtu & Hlive)) & Hg & Htxl & _) Hep Hcl.
     destruct (ep_step_spec _ _ _ Hep) as (s' & out & tags & Hstep & _ & _ & _ & _ & X4 & _).
     rewrite X4. unfold log_written. destruct ev; try reflexivity. destruct out; try reflexivity.
     destruct (ginv_wf _ _ _ _ Hg) as (Hwf & _ & Hsh).
-    destruct (c05 (ep_cx e) (eg_tx g) (ep_sock e) (EvSend data) s' (OSize n) tags Hinv Hcx I Hstep) as (gt' & _ & Hrel & _).
+    destruct (c05 (ep_cx e) (eg_tx g) (ep_sock e) (EvSend data) s' (OSize n) tags Hinv Hcx Hmtu Hlive I Hstep) as (gt' & _ & Hrel & _).
     cbn [tcp_step] in Hstep.
     destruct (tcp_send_slice (ep_sock e) data) as [(s1, n1)|err|] eqn:Es; inversion Hstep; subst s1 n1 tags; clear Hstep.
     destruct (send_slice_tailf _ _ _ _ Es) as (_ & Hst).
